@@ -83,6 +83,26 @@ def rule_sd1(ctx: Ctx) -> RuleResult:
                                     break
                             if leak:
                                 break
+                        # seed() is for factories, deepcopy(seed) for values: the 'callable' test decides which
+                        for e in p.trace:
+                            if e.k != "decision":
+                                continue
+                            tt, pol = e.test, e.outcome
+                            while tt[0] == "not":
+                                tt, pol = tt[1], not pol
+                            if not (tt[0] == "call" and tt[1] == ("builtin", "callable") and len(tt[2]) == 1 and tt[2][0][0] == "param"):
+                                continue
+                            sname = tt[2][0][1]
+                            called = [x for x in p.trace if x.k == "ucall" and x.name == sname and not x.args]
+                            copied = [x for x in p.trace if x.k == "call" and x.func == ("glob", "copy.deepcopy") and x.args and x.args[0][0] == "param" and x.args[0][1] == sname]
+                            ok = (bool(called) and not copied) if pol else (bool(copied) and not called)
+                            r.ob(ok, lambda e=e, pol=pol, called=called, copied=copied, kind=kind, cfg=cfg, p=p: mk_finding(
+                                "SD-1", spec, kind, cfg, p,
+                                "where callable(%s) is %s the fresh accumulator must come from %s; this path does %s: a seed value is called, or a seed factory is "
+                                "copied and handed to the accumulator as if it were the value" % (
+                                    sname, pol, "%s()" % sname if pol else "copy.deepcopy(%s)" % sname, [x.brief() for x in called + copied] or "neither"),
+                                node=e.node, extra="callable"))
+                            break
                         r.ob(leak is None, lambda: mk_finding(
                             "SD-1", spec, kind, cfg, p,
                             "the seed object itself flows into '%s' (through %s): every key and every lifetime would share and mutate the same "
@@ -377,6 +397,65 @@ def rule_sc1(ctx: Ctx):
             "completion behaviour differs between the multiplexed and the plain scan for %s: mux %s vs plain %s" % (
                 cfg_str(cfg), sorted(sk_mux_comp), sorted(sk_obs_comp))))
         r.sample({"config": cfg, "next": sorted(map(list, sk_mux_next)), "completed": sorted(map(list, sk_mux_comp))})
+    # AG-3b for scan: the plain sibling decides 'no accumulator yet' by a flag of its own (or a private marker), never by looking at
+    # the accumulator, which holds user data (an accumulator may legitimately be None / False / 0)
+    init_false = set()
+    sfn = obs.subscribe_fn
+    for s in sfn.body:
+        if isinstance(s, ast.Assign) and len(s.targets) == 1 and isinstance(s.targets[0], ast.Name) and isinstance(s.value, ast.Constant) and s.value.value is False:
+            init_false.add(s.targets[0].id)
+    for ospec in (ospec_next, ospec_comp):
+        for cfg in valuations(ctx.space(ospec)):
+            for p in ctx.paths(ospec, None, cfg):
+                if not _normal(p):
+                    continue
+                fresh = any((e.k == "ucall" and e.name == "seed") or (e.k == "call" and e.func == ("glob", "copy.deepcopy")) for e in p.trace)
+                folds = [e for e in p.trace if e.k == "ucall" and e.name != "seed"]
+                if not folds:
+                    continue
+                guards = []
+                for e in p.trace:
+                    if e.k != "decision":
+                        continue
+                    tt, pol = e.test, e.outcome
+                    while tt[0] == "not":
+                        tt, pol = tt[1], not pol
+                    frees = [x for x in subterms(tt) if x[0] == "free"]
+                    if frees:
+                        guards.append((e, tt, pol, frees))
+                ra.groups.add(("scan_obs unset test", ospec.label, cfg_str(cfg), fresh))
+                good, why = False, "no test of a closure variable decides between the seed and the accumulator"
+                for e, tt, pol, frees in guards:
+                    names = {x[1] for x in frees}
+                    if accvar in names:
+                        other = None
+                        if tt[0] == "cmp" and tt[1] in ("Is", "IsNot"):
+                            other = tt[3] if tt[2][0] == "free" else tt[2]
+                        private = other is not None and other[0] == "modvar" and _private_marker(ctx, ospec.module, other)
+                        if not private:
+                            good, why = False, "'%s' looks at the accumulator itself: an accumulator equal to that value (user data) is taken for 'no accumulator yet' " \
+                                               "or the other way round, while the multiplexed scan uses the private marker STATE_NOTSET" % show(e.test)
+                            break
+                        good = True
+                    elif names <= init_false:
+                        # a flag that starts False: 'flag false' must mean 'fresh seed'
+                        flag_true = pol if tt[0] == "free" else (pol == (tt[1] in ("Is", "Eq")) if tt[0] == "cmp" and ("const", True) in (tt[2], tt[3]) else
+                                                                  (pol != (tt[1] in ("Is", "Eq")) if tt[0] == "cmp" and ("const", False) in (tt[2], tt[3]) else None))
+                        if flag_true is None:
+                            good, why = False, "the test '%s' of the flag is not a truth test" % show(e.test)
+                            break
+                        good = flag_true != fresh
+                        why = "the flag %s is %s on a path that %s" % (sorted(names), flag_true, "takes a fresh seed" if fresh else "folds from the stored accumulator")
+                        if not good:
+                            break
+                ra.ob(good, lambda p=p, why=why, ospec=ospec, cfg=cfg: mk_finding("AG-3b", ospec, None, cfg, p, "scan on an Observable: %s" % why, extra="unset-test"))
+                # the flag is raised whenever an accumulator is stored
+                stored = [e for e in p.trace if e.k == "nonlocal" and e.name == accvar]
+                raised = [e for e in p.trace if e.k == "nonlocal" and e.name in init_false and e.value == ("const", True)]
+                if stored and init_false:
+                    ra.ob(bool(raised), lambda p=p, ospec=ospec, cfg=cfg: mk_finding(
+                        "AG-3b", ospec, None, cfg, p, "scan on an Observable stores an accumulator without raising its 'has accumulator' flag: the next item folds from the seed again",
+                        extra="flag"))
     # the plain sibling must complete exactly once after its emissions
     for cfg in valuations(ctx.space(ospec_comp)):
         for p in ctx.paths(ospec_comp, None, cfg):
@@ -531,6 +610,11 @@ def _is_scan_like(ctx, opname):
     if opname == "rxsci.operators.scan.scan":
         return True
     return opname in ("rxsci.data.to_list.to_list", "rxsci.operators.count.count")
+
+
+def _private_marker(ctx, m, t):
+    from .ag import _is_private_marker
+    return _is_private_marker(ctx, m, t)
 
 
 def rule_sc2(ctx: Ctx) -> RuleResult:
